@@ -116,3 +116,57 @@ def uke(V):
         v = V.np.sp_cumtrapz(a, dx=dt, initial=0)
         ke = lambda j: T.smul(T.smul(Q('1/2'), v[j]), T.sabs(v[j]))      # 0.5 * v * |v|
         series_clauses(V, out, out.result, n, T.sabs(ke(0)), lambda i: T.sabs(T.ssub(ke(i), ke(i - 1))))
+
+
+# ---------------------------------------------------------------------------------------------- standardised CAV
+@unit('C09', 'calc_cav_dp', functions=['eqsig.im.calc_cav_dp'], modes=('bounded',), sizes=dict(pps=[2, 3], secs=[2, 3]),
+      thorough_sizes=dict(pps=[2, 3, 4, 5], secs=[2, 3, 4]), budget_ms=20000)
+def cav_dp(V):
+    st = {}
+
+    def setup():
+        pps, secs = V.size('pps', 2), V.size('secs', 2)
+        n = pps * secs + 1
+        a = V.array('a', n)
+        dt = Q(1, pps)                                  # integer number of samples per second (property's domain)
+        asig = S.make_signal(V, 'AccSignal', a, dt)
+        st.update(a=a, n=n, dt=dt, pps=pps, secs=secs)
+        return ((asig,), {})
+    for out in V.run('eqsig.im.calc_cav_dp', setup):
+        if not out.no_raise():
+            continue
+        a, n, dt, pps, secs = st['a'], st['n'], st['dt'], st['pps'], st['secs']
+        r = out.result
+        ok = hasattr(r, 'shape') and tuple(r.shape) == (n,)
+        out.prove('length-is-npts', ok)
+        if not ok:
+            continue
+        g = lambda j: T.sdiv(T.sabs(a[j]), G)
+        panel = lambda k: T.sdiv(T.smul(dt, T.sadd(g(k), g(k + 1))), 2)
+        upper, lower, cav = Q(0), Q(0), Q(0)
+        any_q = False
+        for w in range(secs):
+            js = range(w * pps, (w + 1) * pps + 1)
+            peak = None
+            for j in js:
+                peak = g(j) if peak is None else T.smax2(peak, g(j))
+            q = T.sge(peak, Q('0.025'))                 # the window reaches 0.025 g (at any of its samples, both ends included)
+            any_q = T.sor(any_q, q)
+            integ = Q(0)
+            big = None
+            for k in range(w * pps, (w + 1) * pps):
+                integ = T.sadd(integ, panel(k))
+                big = panel(k) if big is None else T.smax2(big, panel(k))
+            upper = T.sadd(upper, T.site(q, integ, 0))
+            lower = T.sadd(lower, T.site(q, T.ssub(integ, big), 0))
+            cav = T.sadd(cav, integ)
+        final = r[n - 1]
+        out.prove('final-value-at-most-sum-of-qualifying-window-integrals', T.sle(final, upper))
+        out.prove('final-value-within-one-panel-per-qualifying-window', T.sge(final, lower))
+        out.prove('zero-when-no-window-reaches-0.025g', T.simplies(T.snot(any_q), T.sand(*[T.seq(r[i], 0) for i in range(n)])))
+        out.prove('bounded-by-CAV/9.81', T.sle(final, cav))
+        for i in range(n):
+            out.prove('non-negative[%d]' % i, T.sge(r[i], 0))
+            if i:
+                out.prove('non-decreasing[%d]' % i, T.sge(r[i], r[i - 1]))
+        out.unchanged('a', a)
